@@ -22,7 +22,7 @@ MIN_EVALS = {"quick": 300, "thorough": 20000}
 
 SCALARS = [0, 1, 2, R - 1, R, R + 1, (1 << 255) - 1, 1 << 255, (1 << 256) - 1, 2 * R + 3]
 # scalars with a binary prefix congruent to 0 or +-1 mod r (the ladder's accumulator meets O / P / -P)
-SCALARS += sorted({(pre << j) + t for pre in (R - 1, R, R + 1) for j in (1, 2) for t in range(1 << j) if (pre << j) + t < (1 << 256)})
+SCALARS += sorted({(pre << j) + t for pre in (R - 2, R - 1, R, R + 1, R + 2, R + 3) for j in (0, 1, 2) for t in range(1 << j) if (pre << j) + t < (1 << 256)})
 
 
 def plan(tier, seed):
